@@ -607,8 +607,12 @@ func (w *WAL) maybeSync() error {
 	}
 
 	if needSync {
-		// Use syncLocked since we're already holding the mutex
-		if err := w.syncLocked(); err != nil {
+		// The caller already passed the status check and has written its record. The
+		// status flags are set without the WAL mutex (SetRotating during log rotation),
+		// so re-checking them here could report ErrWALRotating for a record that is
+		// already in the log: the caller would retry or give up although the write is
+		// durable. Sync unconditionally; the file stays open while the mutex is held.
+		if err := w.flushAndSyncLocked(); err != nil {
 			return err
 		}
 	}
@@ -625,6 +629,12 @@ func (w *WAL) syncLocked() error {
 		return ErrWALRotating
 	}
 
+	return w.flushAndSyncLocked()
+}
+
+// flushAndSyncLocked writes the buffer to the file and syncs it. The mutex must be held
+// and the file must be open (Close takes the mutex before closing it).
+func (w *WAL) flushAndSyncLocked() error {
 	if err := w.writer.Flush(); err != nil {
 		return fmt.Errorf("failed to flush WAL buffer: %w", err)
 	}
